@@ -1011,6 +1011,12 @@ impl DcpsDomainParticipant {
                                         &discovered_reader_data.dds_subscription_data,
                                         &publisher_qos,
                                     );
+                                if !incompatible_qos_policy_list.is_empty() {
+                                    // A matched reader that became incompatible is not matched anymore
+                                    data_writer.remove_matched_subscription(&InstanceHandle::new(
+                                        discovered_reader_data.dds_subscription_data.key().value,
+                                    ));
+                                }
                                 if incompatible_qos_policy_list.is_empty() {
                                     match data_writer.matched_subscription_list.iter_mut().find(
                                         |x| {
@@ -1264,6 +1270,11 @@ impl DcpsDomainParticipant {
                                     .add_communication_state(StatusKind::InconsistentTopic);
                             }
                         }
+                    } else {
+                        // A matched reader that moved to another partition is not matched anymore
+                        data_writer.remove_matched_subscription(&InstanceHandle::new(
+                            discovered_reader_data.dds_subscription_data.key().value,
+                        ));
                     }
                 }
             }
@@ -1292,17 +1303,7 @@ impl DcpsDomainParticipant {
         else {
             return;
         };
-        if data_writer
-            .matched_subscription_list
-            .iter()
-            .any(|x| subscription_handle.as_ref() == &x.key().value)
-        {
-            data_writer.remove_matched_subscription(&subscription_handle);
-
-            data_writer
-                .status_condition
-                .add_communication_state(StatusKind::PublicationMatched);
-        }
+        data_writer.remove_matched_subscription(&subscription_handle);
     }
 
     #[tracing::instrument(skip(self, runtime))]
@@ -1544,6 +1545,12 @@ impl DcpsDomainParticipant {
                                         &discovered_writer_data.dds_publication_data,
                                         &subscriber_qos,
                                     );
+                                if !incompatible_qos_policy_list.is_empty() {
+                                    // A matched writer that became incompatible is not matched anymore
+                                    data_reader.remove_matched_publication(&InstanceHandle::new(
+                                        discovered_writer_data.dds_publication_data.key().value,
+                                    ));
+                                }
                                 if incompatible_qos_policy_list.is_empty() {
                                     data_reader.add_matched_publication(
                                         discovered_writer_data.dds_publication_data.clone(),
@@ -1755,6 +1762,11 @@ impl DcpsDomainParticipant {
                                     .add_communication_state(StatusKind::InconsistentTopic);
                             }
                         }
+                    } else {
+                        // A matched writer that moved to another partition is not matched anymore
+                        data_reader.remove_matched_publication(&InstanceHandle::new(
+                            discovered_writer_data.dds_publication_data.key().value,
+                        ));
                     }
                 }
             }
@@ -1783,13 +1795,7 @@ impl DcpsDomainParticipant {
         else {
             return;
         };
-        if data_reader
-            .matched_publication_list
-            .iter()
-            .any(|x| &x.key().value == publication_handle.as_ref())
-        {
-            data_reader.remove_matched_publication(&publication_handle);
-        }
+        data_reader.remove_matched_publication(&publication_handle);
     }
 
     #[tracing::instrument(skip(self, runtime))]
